@@ -384,7 +384,7 @@ def run_seq_node(a5mod, seam, spec):
             seam.ihandler = None
         res[t][idx[t]] = [outcome, [canon.enc(a) for a in args] == call['a']]
         idx[t] += 1
-    post, post_seq = post_quiescence(a5mod, spec['threads'])
+    post, post_seq = post_quiescence(a5mod, spec['threads'] + ([spec['probes']] if spec.get('probes') else []))
     return {'results': res, 'post': post, 'post_seq': post_seq}
 
 
@@ -1309,7 +1309,10 @@ def run_threads_node(a5mod, seam, spec, hot=None, prepared=None):
     post = post_seq = None
     changed_later = []
     if s.aborted is None and spec.get('post', True):
-        post, post_seq = post_quiescence(a5mod, spec['threads'])
+        # (the last row, if any, are the *probes*: calls related to the run's calls by their arguments -- a
+        # neighbouring resolution, the parent cell -- which a poisoned shared entry may hit although no call
+        # of the run itself does)
+        post, post_seq = post_quiescence(a5mod, spec['threads'] + ([spec['probes']] if spec.get('probes') else []))
         # what the callers were handed must still be what they hold (no result buffer reused behind their back)
         for t in range(len(s.values)):
             for i, v in enumerate(s.values[t]):
